@@ -6,6 +6,7 @@ History = ops joined by ';'.  Op text (same as ocaml/c16/driver.ml):
   A ch prio name|- tmo|-   P c chs|-   L   F c jid res|- err|-   K c jids|-   T dt   D c   C k
   W c jid   I jid   S jid v   X   R (pickle round trip of the db = restart; C18 only)
   U dt (clock advances, no handletimeouts sweep)   Y jids (rpc_qdrop)   G (watchdog: dropdead)
+  WL c jid,jid,.. (rpc_qwait with several ids)
 jid = a<n> (integer id chosen by the server) | n<k> (client supplied string id chr(65+k))."""
 import json
 
@@ -19,10 +20,14 @@ FIELDS = {
     "C18": ["count", "now", "jobs", "ids", "queues", "waiters", "conns", "tq", "nchoices"],
 }
 # monitors whose firing is a violation of the property
+# bb_handout / bb_lost: black-box conservation (RPC return values only: no job is returned by two pulls unless its holder
+# disconnected; at the end of every history all connections disconnect and a fresh worker must receive every unfinished job once)
+# rpc_error: a request of the alphabet is answered by an internal error
 MONITORS = {
-    "C16": {"conservation", "addressable", "handout"},
-    "C17": {"eligible", "never_done", "min_first", "final", "wait", "readd", "counters"},
-    "C18": {"restore", "conservation", "addressable", "eligible", "never_done", "min_first", "final", "wait", "id_reuse", "timeout"},
+    "C16": {"conservation", "addressable", "handout", "bb_handout", "bb_lost", "rpc_error"},
+    "C17": {"eligible", "never_done", "min_first", "final", "wait", "readd", "counters", "rpc_error"},
+    "C18": {"restore", "conservation", "addressable", "eligible", "never_done", "min_first", "final", "wait", "id_reuse", "timeout",
+            "bb_handout", "bb_lost", "rpc_error"},
 }
 
 
@@ -54,12 +59,14 @@ def gen_history(rng, maxlen=12, prop="C16", restarts=0):
         return gen_drop_scenario(rng, maxlen)
     if r0 < 0.14:
         return gen_readd_scenario(rng, maxlen)
-    w = {"A": 24, "P": 22, "L": 16, "F": 9, "K": 6, "T": 6, "D": 8, "C": 3, "W": 2, "I": 1, "S": 1, "X": 2, "U": 2, "Y": 1}
+    if r0 < (0.24 if prop == "C17" else 0.18):
+        return gen_multiwait_scenario(rng, maxlen)
+    w = {"A": 24, "P": 22, "L": 16, "F": 9, "K": 6, "T": 6, "D": 8, "C": 3, "W": 2, "I": 1, "S": 1, "X": 2, "U": 2, "Y": 1, "WL": 1}
     if prop == "C17":
-        w.update({"W": 7, "X": 5, "F": 12, "K": 8, "T": 8, "S": 2, "U": 5})
+        w.update({"W": 5, "WL": 4, "X": 5, "F": 12, "K": 8, "T": 8, "S": 2, "U": 5})
     if prop == "C18":
         # C18 needs rpc_qdrop and the watchdog to reach "the newest job has left id2job before the save"
-        w.update({"W": 5, "F": 12, "T": 7, "U": 4, "Y": 5, "G": 4})
+        w.update({"W": 4, "WL": 2, "F": 12, "T": 7, "U": 4, "Y": 5, "G": 4})
     kinds = list(w)
     weights = [w[k] for k in kinds]
     for _ in range(n):
@@ -101,6 +108,9 @@ def gen_history(rng, maxlen=12, prop="C16", restarts=0):
             # an earlier (possibly dying) waiter is pending: since a8ac510 waitjobs does not wait on a finished job
             # (before, D 1;A 1 1 - 0;W 1 a1;K 5 a1;W 5 a1;L left connection 5 blocked forever)
             ops.append("W %d %s" % (rng.choice(workers + [5, 6]), some_jid()))
+        elif k == "WL":
+            # rpc_qwait with 2-3 ids: finished / unfinished / unknown / repeated ids mixed
+            ops.append("WL %d %s" % (rng.choice(workers + [5, 6]), ",".join(some_jid() for _ in range(rng.choice([2, 2, 3])))))
         elif k == "I":
             ops.append("I %s" % some_jid())
         elif k == "S":
@@ -155,6 +165,72 @@ def gen_readd_scenario(rng, maxlen=12):
         if len(ops) >= maxlen + 2:
             break
         ops.insert(rng.randint(2, len(ops)), rng.choice(noise))
+    return ops
+
+
+def gen_multiwait_scenario(rng, maxlen=12):
+    """rpc_qwait([a, b, ..]) with 2-3 ids (jobs.py waitjobs): 2-3 jobs (client ids and server-chosen ids), some finished before
+    the wait starts; one or two clients wait on lists of them (different orders, overlapping); WHILE they are blocked the
+    ids change their meaning or vanish - kill + re-add of a client id, rpc_qdrop + another client's wait that collects the job,
+    the watchdog, timeouts - and the jobs are finished one after the other in any order, with or without loop turns in between.
+    A client is released exactly when all job objects its ids named WHEN THE REQUEST ARRIVED are finished, and receives them."""
+    njobs = rng.choice([2, 2, 3])
+    ch = rng.choice([0, 1])
+    jids = []
+    ops = []
+    named = {}
+    for k in range(njobs):
+        if rng.random() < 0.6:
+            nm = rng.choice([x for x in (0, 1, 2) if "n%d" % x not in jids])
+            jids.append("n%d" % nm)
+            named["n%d" % nm] = nm
+            ops.append("A %d %d %d %s" % (rng.choice([ch, ch, 1 - ch]), rng.choice([0, 0, 1]), nm, rng.choice(["-", "-", "5"])))
+        else:
+            jids.append("a%d" % (k + 1))
+            ops.append("A %d %d - %s" % (rng.choice([ch, ch, 1 - ch]), rng.choice([0, 0, 1]), rng.choice(["-", "-", "5"])))
+
+    def fin(j):
+        return rng.choice(["F 7 %s 7 -" % j, "F 7 %s 7 -" % j, "K 7 %s" % j, "F 7 %s - 3" % j, "F 7 %s - 0" % j])
+
+    if rng.random() < 0.3:
+        ops.append(fin(rng.choice(jids)))                         # one job is finished before anybody waits
+    clients = rng.sample([5, 6, 8], rng.choice([1, 1, 2]))
+    for c in clients:
+        l = list(jids)
+        rng.shuffle(l)
+        l = l[:rng.choice([2, 2, 3])]
+        if rng.random() < 0.1:
+            l.append(rng.choice(l))
+        ops.append("WL %d %s" % (c, ",".join(l)))
+    # while they wait: ids change meaning / vanish
+    mid = []
+    for _ in range(rng.choice([1, 1, 2])):
+        j = rng.choice(jids)
+        r = rng.random()
+        if j in named and r < 0.45:
+            mid += ["K 7 %s" % j, "A %d %d %d -" % (rng.choice([0, 1]), rng.choice([0, 1]), named[j])]     # kill + re-add
+        elif r < 0.75:
+            mid += [fin(j), "Y %s" % j, "W 9 %s" % j]             # finished, dropped, collected by another client
+        elif r < 0.85:
+            mid += [fin(j), "U 4000", "G", "U 4000", "G"]         # finished and forgotten by the watchdog
+        else:
+            mid += [rng.choice(["T 6", "T 130", "Y %s" % j, "D %d" % rng.choice(clients)])]
+    ops += mid
+    rest = list(jids)
+    rng.shuffle(rest)
+    for j in rest:
+        if rng.random() < 0.85:
+            ops.append(rng.choice([fin(j), fin(j), "P 1 -", "T 130"]))
+        if rng.random() < 0.4:
+            ops.append("L")
+    ops.append("L")
+    if rng.random() < 0.3:
+        ops += [rng.choice(["WL 4 %s" % ",".join(rng.sample(jids, 2)), "X", "I %s" % rng.choice(jids), "G"]), "L"]
+    noise = ["L", "X", "C 1", "P %d -" % rng.choice([1, 2]), "D %d" % rng.choice(clients), "A %d 0 - -" % ch, "I %s" % rng.choice(jids), "U 6"]
+    for _ in range(rng.choice([0, 0, 1, 2])):
+        if len(ops) >= maxlen + 4:
+            break
+        ops.insert(rng.randint(njobs, len(ops)), rng.choice(noise))
     return ops
 
 
@@ -228,6 +304,20 @@ def compare(prop, k, op, impl, model):
     if io != mo:
         return "op %d (%s): return value differs: impl %s model %s" % (k, op, json.dumps(io), json.dumps(mo))
     for f in FIELDS[prop]:
+        if f not in impl["snap"]:
+            continue            # an internal the harness could not read on this code: reported as `unreadable` (broken tie), not compared
+        a, b = impl["snap"].get(f), model["snap"].get(f)
+        if f == "conns":
+            if any(c[4] is None for c in a):
+                # running_jobs not readable as {id: job object}: compare the connection states without it
+                a = [c[:4] for c in a if c[1] != "idle"]
+                b = [c[:4] for c in b if c[1] != "idle"]
+            if any(c[1] == "wait" and c[3] is None for c in a):
+                a = [c[:3] + [None] + c[4:] if c[1] == "wait" else c for c in a]
+                b = [c[:3] + [None] + c[4:] if c[1] == "wait" else c for c in b]
+            if a != b:
+                return "op %d (%s): snapshot field %s differs: impl %s model %s" % (k, op, f, json.dumps(a), json.dumps(b))
+            continue
         if impl["snap"].get(f) != model["snap"].get(f):
             return "op %d (%s): snapshot field %s differs: impl %s model %s" % (
                 k, op, f, json.dumps(impl["snap"].get(f)), json.dumps(model["snap"].get(f)))
